@@ -33,6 +33,10 @@ def main():
                 meta = {"id": sid, "breaks_property": prop, "source": "independent sub-agent given only the property text and a scratch worktree of the pinned commit", "verified_on_repo_head": head, "rebased_by_hand": rebased}
                 run("git checkout -- . && git clean -fdq", cwd=WT)
                 shutil.copy(demo, WT + "/seeded_demo_test.go")
+                if x == "b" and d in os.environ.get("SEED_BOTH", "").split():
+                    # demo B uses helpers defined in demo A's file: both files go into the package
+                    shutil.copy("%s/%s/seeded_demo_a_test.go" % (SRC, d), WT + "/seeded_demo_helper_test.go")
+                    meta["demo_needs_helper_file"] = "demo_helper_test.go.txt (the other demo of the same sub-agent, whose helpers this one uses)"
                 rc, out = run("go test %s -vet=off -count=1 -run TestSeededDemo ." % RACE, cwd=WT, timeout=900)
                 meta["demo_passes_without_change"] = rc == 0
                 rc1, o1 = run("git apply --check %s" % src, cwd=WT)
@@ -71,6 +75,8 @@ def write(sid, meta, patch, demo):
     if patch is not None:
         open(d + "/patch.diff", "w").write(patch)
     shutil.copy(demo, d + "/demo_test.go.txt")
+    if meta.get("demo_needs_helper_file"):
+        shutil.copy(os.path.join(os.path.dirname(demo), "seeded_demo_a_test.go"), d + "/demo_helper_test.go.txt")
     old = {}
     if os.path.exists(d + "/meta.json"):
         old = json.load(open(d + "/meta.json"))
